@@ -236,6 +236,69 @@ theorem cmu_step {s s' : CState} {e : CEvent} (h : cstep s e = some s') (hi : e.
       | subst h) <;>
     simp [cmu, move] <;> omega
 
+/-! ### ranking while a JoinAll is being carried out (workerKill = -1) -/
+
+/-- distance of the pool from "all tasks processed, all workers gone" while workerKill = -1: every
+    queued task costs a full worker round, every worker its remaining steps to the exit -/
+def cmuJ (s : CState) : Nat :=
+  20 * s.queue + 18 * s.cnt .run + 17 * s.cnt .chkT + 16 * s.cnt .noTask + 15 * s.cnt .idleReg + 14 * s.cnt .hasL
+  + 13 * s.cnt .readQT + 13 * s.cnt .readQF + 12 * s.cnt .willWait + 11 * s.cnt .waiting + 10 * s.cnt .woken
+  + 9 * s.cnt .unlocking + 8 * s.cnt .unreg + 7 * s.cnt .head + 6 * s.cnt .chkF + 5 * s.cnt .drained
+  + 4 * s.cnt .exiting + 2 * s.pushed + s.adderL + 2 * s.swcPend + s.swcL
+
+set_option maxHeartbeats 1600000 in
+theorem cmuJ_step {s s' : CState} {e : CEvent} (h : cstep s e = some s') (hi : e.internal = true)
+    (hk : s.kill = -1) : cmuJ s' + 1 ≤ cmuJ s ∧ s'.kill = -1 := by
+  cases e with
+  | aPush => simp [CEvent.internal] at hi
+  | swcUp _ => simp [CEvent.internal] at hi
+  | swcDown _ => simp [CEvent.internal] at hi
+  | swcSet _ => simp [CEvent.internal] at hi
+  | joinKill => simp [CEvent.internal] at hi
+  | bcast => simp [CEvent.internal] at hi
+  | killExit => simp [cstep, hk] at h
+  | pop ok =>
+    cases ok <;> simp [cstep, CState.mv] at h <;> obtain ⟨_, _, rfl⟩ := h <;>
+      refine ⟨?_, by first | exact hk | rfl⟩ <;> simp [cmuJ, move] <;> omega
+  | popNone ok =>
+    cases ok <;> simp [cstep, CState.mv] at h <;> obtain ⟨_, _, rfl⟩ := h <;>
+      refine ⟨?_, by first | exact hk | rfl⟩ <;> simp [cmuJ, move] <;> omega
+  | killPass =>
+    simp [cstep, CState.mv, hk] at h
+    obtain ⟨_, rfl⟩ := h
+    refine ⟨?_, by first | exact hk | rfl⟩; simp [cmuJ, move]; omega
+  | drainExit =>
+    simp [cstep, CState.mv, hk] at h
+    obtain ⟨_, rfl⟩ := h
+    refine ⟨?_, by first | exact hk | rfl⟩; simp [cmuJ, move]; omega
+  | readQ =>
+    simp only [cstep] at h
+    split at h <;> simp [CState.mv] at h <;> obtain ⟨_, rfl⟩ := h <;>
+      refine ⟨?_, by first | exact hk | rfl⟩ <;> simp [cmuJ, move] <;> omega
+  | readKill p =>
+    cases p <;> simp [cstep, CState.mv, hk] at h <;> obtain ⟨_, rfl⟩ := h <;>
+      refine ⟨?_, by first | exact hk | rfl⟩ <;> simp [cmuJ, move] <;> omega
+  | aSignal w =>
+    cases w <;> simp [cstep, CState.mv] at h <;> obtain ⟨_, _, rfl⟩ := h <;>
+      refine ⟨?_, by first | exact hk | rfl⟩ <;> simp [cmuJ, move] <;> omega
+  | swcBcast =>
+    simp [cstep] at h; obtain ⟨_, rfl⟩ := h
+    refine ⟨?_, by first | exact hk | rfl⟩; simp [cmuJ, cwakeAll]; omega
+  | _ =>
+    simp [cstep, CState.mv, clockFree, holders] at h <;>
+    (first
+      | (obtain ⟨_, _, rfl⟩ := h)
+      | (obtain ⟨_, rfl⟩ := h)
+      | subst h) <;>
+    refine ⟨?_, by first | exact hk | rfl⟩ <;> simp [cmuJ, move] <;> omega
+
+/-- JoinAll's polling broadcast never increases the measure and strictly decreases it when somebody waits -/
+theorem cmuJ_bcast {s s' : CState} (h : cstep s .bcast = some s') :
+    cmuJ s' + s.cnt .waiting ≤ cmuJ s ∧ s'.kill = s.kill := by
+  simp [cstep] at h; subst h
+  refine ⟨?_, rfl⟩
+  simp [cmuJ, cwakeAll]; omega
+
 /-- reachable states of the per-worker LTS abstract to reachable counting states -/
 theorem reachable_abs {s : State} (h : Reachable repaired s) : CReachable (abs s) := by
   obtain ⟨es, hes⟩ := h
